@@ -146,6 +146,21 @@ def okey(op):
     return json.dumps(op, sort_keys=True)
 
 
+def with_alarm(sec, fn, *a):
+    """fn(*a) in the main thread of this (worker) process, interrupted by SIGALRM after sec seconds"""
+    import signal
+
+    def h(signum, frame):
+        raise TimeoutError("operation did not return within %ds" % sec)
+    old = signal.signal(signal.SIGALRM, h)
+    signal.alarm(sec)
+    try:
+        return fn(*a)
+    finally:
+        signal.alarm(0)
+        signal.signal(signal.SIGALRM, old)
+
+
 class Solo:
     """solo results per dataset path, computed on handles of their own"""
 
@@ -156,7 +171,10 @@ class Solo:
     def __call__(self, op):
         k = okey(op)
         if k not in self.cache:
-            self.cache[k] = conc.solo_result(self.path, op)
+            try:
+                self.cache[k] = with_alarm(60, conc.solo_result, self.path, op)
+            except TimeoutError as e:
+                self.cache[k] = ["EXC", "TimeoutError", str(e)]
         return self.cache[k]
 
 
@@ -203,67 +221,194 @@ def run(ctx):
         ctx.obligation("coqchk -o Pq.Proofs.InterleaveProofs: axioms <none>", rc == 0 and "Axioms: <none>" in out, out[-1500:])
         ctx.checker_cmds.append("coqchk -o -silent -Q coq/theories Pq Pq.Proofs.InterleaveProofs")
     C.use_shadow()
-    pq = C.Pqref()
-    from fastparquet import ParquetFile
-    rng = ctx.rng
     quick = ctx.quick()
-    OPC["ok"] = conc.warm_opcodes()
-    ctx.extra["opcode_tracing"] = OPC["ok"]
-    if not OPC["ok"]:
-        ctx.notes.append("sys.settrace delivers no opcode events in this interpreter: bytecode-granular phases skipped")
+    rng = ctx.rng
     ctx.rule = ("datasets (single file / hive partitioned / multi-file, 2-4 row groups, int/float/str/datetime/category/nullable columns, "
-                "optional compression) x operations drawn from the property's list (to_pandas with columns/filters/categories/index, "
-                "pf[i:j:k], pf[i], iter_row_groups, head, statistics, count, columns/info, pickle round trip, part-file writers); "
-                "a case = one footprint trace, one forced two-thread schedule (preemption right after the k-th shared write, or at a line), "
-                "one free-running round of 2..16 threads, or one part-writer round; trivial = a round in which every thread runs the same "
-                "operation with no filters/columns; distinct = distinct (dataset, operations, schedule) tuples")
-    datasets = []
-    for kind in (["single", "hive"] if quick else ["single", "hive", "multi", "single"]):
-        spec = gen_dataset(rng, kind, small=True)
-        root = os.path.join(ctx.scratch, "ds%d" % len(datasets))
-        os.makedirs(root)
-        path = conc.build_dataset(spec, root)
-        datasets.append((spec, path, Solo(path)))
-    # foreign files of the repository's test-data: no pandas metadata / pyarrow metadata / nested schemas / empty row groups
-    names = [FOREIGN[(ctx.seed + j) % len(FOREIGN)] for j in range(1)] if quick else FOREIGN
-    for name in names:
-        spec = foreign_dataset(name)
-        datasets.append((spec, conc.build_dataset(spec, None), Solo(conc.build_dataset(spec, None))))
-        ctx.count("foreign", name)
-
+                "optional compression; foreign files of test-data) x operations drawn from the property's list (to_pandas with "
+                "columns/filters/categories/index, pf[i:j:k], pf[i], iter_row_groups, head, statistics, count, columns/info, pickle round "
+                "trip, part-file writers); a case = one footprint trace, one forced schedule (preemption right after the k-th shared "
+                "write, or at a line / bytecode instruction), one storm schedule, one free-running round of 2..16 threads, or one "
+                "part-writer round; trivial = a round in which every thread runs the same operation with no filters/columns; "
+                "distinct = distinct (dataset, operations, schedule) tuples")
     import time
     tm = ctx.extra.setdefault("phase_seconds", {})
     t0 = time.time()
-    run_corpus(ctx, ctx.scratch)
 
     def lap(name):
         nonlocal t0
         tm[name] = round(time.time() - t0, 1)
         t0 = time.time()
+    # Every execution of fastparquet code happens in forked worker processes (C.pmap): a worker that crashes or hangs is an
+    # observation (reported as a failure of the property with the job as replay), never the end or a stall of the check.
+    jt = 180 if quick else 1200
+    # ---- datasets -----------------------------------------------------------------------------
+    specs = []
+    for kind in (["single", "hive"] if quick else ["single", "hive", "multi", "single"]):
+        specs.append(gen_dataset(rng, kind, small=True))
+    names = [FOREIGN[(ctx.seed + j) % len(FOREIGN)] for j in range(1)] if quick else FOREIGN
+    if not os.path.isdir(os.path.join(C.REPO, "test-data")):
+        ctx.notes.append("no test-data directory under VERIF_REPO: foreign files skipped")
+        names = []
+    base = {"quick": quick, "seed": ctx.seed, "scratch": ctx.scratch}
+    out = apply_jobs(ctx, [dict(base, phase="build", specs=specs, names=names)], jt)
+    built = out[0] if out and out[0] else {"datasets": []}
+    datasets = [(sp, pa) for sp, pa in built["datasets"]]
+    for sp, _ in datasets:
+        if sp["kind"] == "file":
+            ctx.count("foreign", sp["name"])
+    lap("build")
+    if not datasets:
+        return
     # ---- tie 1: the footprint premise, operation by operation --------------------------------
-    footprint_premise(ctx, pq, datasets, rng, quick)
-    lap("footprint")
-
-    # ---- tie 2 (information): the model of schema_tree against schema.py, and the refuted schedule on the real code
-    tree_model(ctx, pq, rng, quick)
-    lap("tree_model")
-
-    # ---- oracle 1: deterministic preemption at shared writes / at lines (real threads) --------
-    forced_search(ctx, datasets, rng, quick)
-    lap("forced")
-    multi_switch(ctx, datasets, rng, quick)
-    lap("multi_switch")
-    storm_search(ctx, datasets, rng, quick)
-    lap("storm")
-
-    # ---- oracle 2: free-running threads ---------------------------------------------------------
-    stress(ctx, datasets, rng, quick)
-    lap("stress")
-
-    # ---- part-file writers ------------------------------------------------------------------
-    part_writers(ctx, pq, rng, quick)
-    lap("part_writers")
+    pq = C.Pqref()
+    footprint_premise(ctx, pq, datasets, rng, quick, jt)
     pq.close()
+    lap("footprint")
+    # ---- everything else: corpus, schema_tree model (information), forced / multi-switch / storm schedules, free-running
+    #      threads, part writers - one job per (phase, dataset or chunk of rounds)
+    base["broken"] = bool(ctx.broken)
+    jobs = [dict(base, phase="corpus"), dict(base, phase="tree_model"), dict(base, phase="part_writers"),
+            dict(base, phase="multi_switch", datasets=datasets)]
+    fb = 60 if quick else 600
+    for di, d in enumerate(datasets):
+        jobs.append(dict(base, phase="forced", datasets=[d], budget=max(6, fb // len(datasets)), tag=di))
+        jobs.append(dict(base, phase="storm", datasets=[d], share=len(datasets), tag=di))
+    rounds = 32 if quick else 240
+    chunk = 8 if quick else 24
+    for r0 in range(0, rounds, chunk):
+        jobs.append(dict(base, phase="stress", datasets=datasets, r0=r0, r1=min(rounds, r0 + chunk), tag=r0))
+    apply_jobs(ctx, jobs, jt)
+    lap("oracles")
+
+
+class Hung(Exception):
+    """a thread of the real code never came back: the job stops here (its spinning threads would distort everything after)"""
+
+
+class Rec:
+    """what a worker records instead of touching the real context; replayed onto it by the parent"""
+
+    def __init__(self, job):
+        import random
+        self.calls = []
+        self.extra = {}
+        self.notes = []
+        self.seed = job["seed"]
+        self.scratch = job["scratch"]
+        self.broken = [1] if job.get("broken") else []
+        self.rng = random.Random("C20/%d/%s/%s" % (job["seed"], job["phase"], job.get("tag", "")))
+        self._quick = job["quick"]
+
+    def quick(self):
+        return self._quick
+
+    def case(self, *a, **k):
+        self.calls.append(("case", a, k))
+
+    def count(self, *a, **k):
+        self.calls.append(("count", a, k))
+
+    def fail(self, *a, **k):
+        self.calls.append(("fail", a, k))
+        return True
+
+    def obligation(self, *a, **k):
+        self.calls.append(("obligation", a, k))
+
+    def correspondence(self, *a, **k):
+        self.calls.append(("correspondence", a, k))
+        return True
+
+
+def _job(job):
+    """worker process: one phase job; returns the recorded context calls (+ a value for the build phase)"""
+    import warnings
+    warnings.simplefilter("ignore")
+    warnings.showwarning = lambda *a, **k: None
+    import time
+    t0 = time.time()
+    rec = Rec(job)
+    OPC["ok"] = conc.warm_opcodes()
+    rec.extra["opcode_tracing"] = OPC["ok"]
+    ph = job["phase"]
+    quick = job["quick"]
+    value = None
+    if ph == "build":
+        ds = []
+        for i, spec in enumerate(job["specs"]):
+            root = os.path.join(job["scratch"], "ds%d" % i)
+            os.makedirs(root, exist_ok=True)
+            ds.append((spec, conc.build_dataset(spec, root)))
+        for name in job["names"]:
+            spec = foreign_dataset(name)
+            ds.append((spec, conc.build_dataset(spec, None)))
+        value = {"datasets": ds}
+    else:
+      try:
+          datasets = [(sp, pa, Solo(pa)) for sp, pa in job.get("datasets", [])]
+          if ph == "corpus":
+              run_corpus(rec, os.path.join(job["scratch"], "corpus"))
+          elif ph == "tree_model":
+              pq = C.Pqref()
+              tree_model(rec, pq, rec.rng, quick)
+              pq.close()
+          elif ph == "part_writers":
+              pq = C.Pqref()
+              part_writers(rec, pq, rec.rng, quick)
+              pq.close()
+          elif ph == "multi_switch":
+              multi_switch(rec, datasets, rec.rng, quick)
+          elif ph == "forced":
+              forced_search(rec, datasets, rec.rng, quick, budget=job["budget"])
+          elif ph == "storm":
+              storm_search(rec, datasets, rec.rng, quick, share=job["share"])
+          elif ph == "stress":
+              stress(rec, datasets, rec.rng, quick, job["r0"], job["r1"])
+          else:
+              raise ValueError(ph)
+      except Hung as e:
+        rec.notes.append("phase %s stopped after a hang: %s" % (ph, e))
+    rec.extra.setdefault("phase_cpu_seconds", {})[ph] = round(time.time() - t0, 1)
+    return {"calls": rec.calls, "extra": rec.extra, "notes": rec.notes, "value": value}
+
+
+def merge_extra(dst, src):
+    for k, v in src.items():
+        if isinstance(v, bool) or k not in dst:
+            dst[k] = v if k not in dst or not isinstance(v, bool) else (dst[k] and v)
+        elif isinstance(v, (int, float)) and isinstance(dst[k], (int, float)):
+            dst[k] = round(dst[k] + v, 1)
+        elif isinstance(v, dict) and isinstance(dst[k], dict):
+            merge_extra(dst[k], v)
+        elif isinstance(v, list) and isinstance(dst[k], list):
+            dst[k] = sorted(set(dst[k]) | set(v))[:80]
+        else:
+            dst[k] = v
+
+
+def apply_jobs(ctx, jobs, job_timeout, func=None):
+    """run the jobs in forked workers; replay what they recorded onto the real context; a worker that died or hung
+    is a failure of the property (the job is the replay); an exception inside the harness is a broken check"""
+    results = C.pmap(func or _job, jobs, nproc=min(8, len(jobs)), job_timeout=job_timeout)
+    values = []
+    for job, res in zip(jobs, results):
+        if isinstance(res, dict) and "__crashed__" in res:
+            if res["__crashed__"].startswith("exception in worker"):
+                ctx.broken.append({"kind": "harness-error", "name": "C20 %s job" % job["phase"],
+                                   "detail": res["__crashed__"] + "\n" + res.get("tb", "")})
+            else:
+                hung = "timeout" in res["__crashed__"]
+                ctx.fail({"component": "shared-handle" if job["phase"] != "part_writers" else "part-writer", "op": job["phase"],
+                          "symptom": "hang" if hung else "crash", "mode": "job"},
+                         {"mode": "job", "job": job}, "the worker process running phase %r %s" % (job["phase"], res["__crashed__"]))
+            values.append(None)
+            continue
+        for name, a, k in res["calls"]:
+            getattr(ctx, name)(*a, **k)
+        merge_extra(ctx.extra, res["extra"])
+        ctx.notes.extend(res["notes"])
+        values.append(res["value"])
+    return values
 
 
 def run_corpus(ctx, scratch):
@@ -322,56 +467,60 @@ FIXED_OPS = [
 
 def _fp_job(job):
     """worker process: trace the operations of one job (fresh handle per operation, or one warm handle)"""
-    path, phase, ops = job
+    path, phase, ops = job["path"], job["fp_phase"], job["ops"]
     import warnings
     warnings.simplefilter("ignore")
     warnings.showwarning = lambda *a, **k: None
-    C.use_shadow()
     from fastparquet import ParquetFile
     warm = ParquetFile(path) if phase == "warm" else None
     opc = phase.endswith("opcode")
     if opc and not conc.warm_opcodes():
-        return []
+        return {"calls": [], "extra": {"opcode_tracing": False}, "notes": [], "value": []}
     out = []
     for op in ops:
         pf = warm if warm is not None else ParquetFile(path)
-        res, changes, nlines, scr = conc.trace_footprint(pf, op, opcodes=opc)
-        out.append((op, conc.canon(res), changes, nlines, scr))
-    return out
+        try:
+            res, changes, nlines, scr = with_alarm(90, conc.trace_footprint, pf, op, None, None, conc.FULL_EVERY, opc)
+            want = with_alarm(60, conc.solo_result, path, op)
+        except TimeoutError as e:
+            out.append((op, ["EXC", "TimeoutError", str(e)], [("start", {})], 0, 0, None))
+            break
+        out.append((op, conc.canon(res), changes, nlines, scr, want))
+    return {"calls": [], "extra": {}, "notes": [], "value": out}
 
 
-def footprint_premise(ctx, pq, datasets, rng, quick):
+def footprint_premise(ctx, pq, datasets, rng, quick, jt):
     """each operation alone under the line tracer; every transition of the state reachable from the
     parent handle must be a memo add, and all traces must agree on one value per key"""
-    import multiprocessing as mp
     jobs, owner = [], []
     sels = {}
-    for di, (spec, path, solo) in enumerate(datasets):
+    mk = lambda path, ph, ops: {"phase": "footprint", "path": path, "fp_phase": ph, "ops": ops, "quick": quick, "seed": ctx.seed}
+    for di, (spec, path) in enumerate(datasets):
         ops = fixed_ops(spec)
         ops += [gen_op(rng, spec) for _ in range(2 if quick else 10)]
         for i in range(0, len(ops), 3):
-            jobs.append((path, "fresh", ops[i:i + 3]))
+            jobs.append(mk(path, "fresh", ops[i:i + 3]))
             owner.append(di)
         wsel = (ops[1:3] + ops[3:4] + ops[8:10] + ops[11:12]) if quick else ops
         sels[di] = wsel
-        jobs.append((path, "warm", wsel))
+        jobs.append(mk(path, "warm", wsel))
         owner.append(di)
         # the same premise at bytecode granularity (every instruction of fastparquet frames) for the short operations,
         # in the thorough tier for all
         short = [o for o in ops if o["op"] in ("slice_only", "index", "count", "statistics", "columns", "head")]
         osel = short[:6] if quick else ops
         for i in range(0, len(osel), 3):
-            jobs.append((path, "fresh-opcode", osel[i:i + 3]))
+            jobs.append(mk(path, "fresh-opcode", osel[i:i + 3]))
             owner.append(di)
-    with mp.get_context("fork").Pool(min(8, len(jobs))) as pool:
-        results = pool.map(_fp_job, jobs, chunksize=1)
-    for di, (spec, path, solo) in enumerate(datasets):
+    results = apply_jobs(ctx, jobs, jt, func=_fp_job)
+    for di, (spec, path) in enumerate(datasets):
         inter = conc.Interner()
         traces, metas = [], []
-        for (jpath, phase, jops), res_list, own in zip(jobs, results, owner):
-            if own != di:
+        for job, res_list, own in zip(jobs, results, owner):
+            if own != di or res_list is None:
                 continue
-            for op, got, changes, nlines, scr in res_list:
+            phase = job["fp_phase"]
+            for op, got, changes, nlines, scr, want in res_list:
                 kinds = conc.classify_trace(changes)
                 case = {"footprint": phase, "dataset": spec, "op": op}
                 ctx.case(case)
@@ -386,13 +535,24 @@ def footprint_premise(ctx, pq, datasets, rng, quick):
                 ctx.extra.setdefault("dtypes_overwrites_seen", 0)
                 ctx.extra["dtypes_overwrites_seen"] += scr
                 # the traced run is itself a solo/sequential run: its result must be the solo result
-                want = solo(op)
                 if got != want:
                     sel = sels[di]
                     ctx.fail({"component": "shared-handle", "op": op["op"], "symptom": symptom(got), "mode": "sequential-" + phase},
                              {"mode": "sequence", "dataset": spec, "ops": [o for o in sel[:sel.index(op) + 1]] if phase == "warm" else [op]},
                              "result on a %s handle differs from the solo result: %r vs %r" % (phase, got, want))
-        out = pq.call("conc_trace_check", traces)
+        # bounded input for the extracted checker: a trace is cut after its first destructive transition (as classified
+        # in Python - the correspondence below compares exactly that index) and after 200 snapshots
+        cut = []
+        for tr, (case, kinds, nlines) in zip(traces, metas):
+            pb = next((i for i, k in enumerate(kinds) if k[1] == "destructive"), None)
+            n_keep = min(len(tr), 200 if pb is None else pb + 2)
+            if n_keep < len(tr):
+                ctx.extra["traces_truncated"] = ctx.extra.get("traces_truncated", 0) + 1
+            cut.append(tr[:n_keep])
+        out = pq_once(("conc_trace_check", cut), 300)
+        if out is None:
+            ctx.obligation("footprint premise [ds%d]: extracted checker answered" % di, False, "pqref conc_trace_check timed out or died")
+            continue
         all_ok, firsts, merged = out[0], out[1], out[2]
         # python-side classification must agree with the extracted checker (model vs harness view of the same traces)
         for (case, kinds, nlines), fb in zip(metas, firsts):
@@ -415,6 +575,17 @@ def footprint_premise(ctx, pq, datasets, rng, quick):
                 for k in t[2]["added"]:
                     seen.add(conc_generic_key(k))
         ctx.extra["memo_keys_written"] = sorted(seen)[:60]
+
+
+def pq_once(cmd, timeout):
+    """one command to a fresh pqref process, with a timeout"""
+    import subprocess
+    try:
+        p = subprocess.run([C.pqref()], input=(C.sx(list(cmd)) + "\n").encode(), stdout=subprocess.PIPE, timeout=timeout)
+        lines = [l for l in p.stdout.decode().split("\n") if l.strip()]
+        return C.parse_sx(lines[0]) if lines else None
+    except subprocess.TimeoutExpired:
+        return None
 
 
 def conc_generic_key(k):
@@ -493,12 +664,13 @@ def check_pair(ctx, spec, path, solo, ops, plan, what, opcodes=False):
             ctx.fail({"component": "shared-handle", "op": op["op"], "other": ops[1 - i]["op"], "symptom": "hang" if dead else symptom(got[i]), "mode": "forced"},
                      dict(case, failing_thread=i, solo=want, got=got[i]),
                      "thread %d (%s) under schedule %s: %r, alone: %r" % (i, okey(op), plan, got[i], want))
+    if dead:
+        raise Hung("forced schedule %s of %s" % (plan, [okey(o) for o in ops]))
     return failed
 
 
-def forced_search(ctx, datasets, rng, quick):
-    budget = 60 if quick else 600
-    per_ds = budget // len(datasets)
+def forced_search(ctx, datasets, rng, quick, budget=None):
+    per_ds = budget if budget is not None else (60 if quick else 600) // len(datasets)
     for spec, path, solo in datasets:
         pool = fixed_ops(spec) + [gen_op(rng, spec) for _ in range(6 if quick else 30)]
         wp = {}
@@ -557,6 +729,8 @@ def multi_switch(ctx, datasets, rng, quick):
                 ctx.fail({"component": "shared-handle", "op": op["op"], "symptom": "hang" if dead else symptom(got[i]), "mode": "forced-multi"},
                          dict(case, failing_thread=i, solo=want, got=got[i]),
                          "thread %d (%s) under a %d-switch schedule: %r, alone: %r" % (i, okey(op), len(plan), got[i], want))
+        if dead:
+            raise Hung("multi-switch schedule of %s" % [okey(o) for o in ops])
 
 
 def check_storm(ctx, spec, path, solo, a, b, every, phase, opcodes=False):
@@ -585,10 +759,12 @@ def check_storm(ctx, spec, path, solo, a, b, every, phase, opcodes=False):
                      dict(case, failing_thread=0, solo=wa, got=ga),
                      "%s run between the lines of %s: %r, alone: %r" % (okey(a), okey(b), ga, wa))
             break
+    if dead:
+        raise Hung("storm %s | %s" % (okey(a), okey(b)))
     return failed
 
 
-def storm_search(ctx, datasets, rng, quick):
+def storm_search(ctx, datasets, rng, quick, share=None):
     """op b preempted at (nearly) every line, a complete op a in each gap.  a = the operations that write
     shared state on this tree (known from their footprint) first, then derived-handle operations."""
     from fastparquet import ParquetFile
@@ -612,17 +788,17 @@ def storm_search(ctx, datasets, rng, quick):
         rng.shuffle(pairs)
         # the cheap derived-handle operation against the small readers always
         pairs = [(writers[2], readers[0]), (writers[0], readers[3])] + pairs
-        for pi, (a, b) in enumerate(pairs[:max(2, npairs // len(datasets))]):
+        for pi, (a, b) in enumerate(pairs[:max(2, npairs // (share or len(datasets)))]):
             opc = OPC["ok"] and (pi % 2 == 0)
             nl = conc.count_steps(ParquetFile(path), b, opcodes=opc)
             every = max(1, -(-nl // max_calls))
             check_storm(ctx, spec, path, solo, a, b, every, rng.randrange(every), opc)
 
 
-def stress(ctx, datasets, rng, quick):
+def stress(ctx, datasets, rng, quick, r0=0, r1=None):
     from fastparquet import ParquetFile
     rounds = 32 if quick else 240
-    for r in range(rounds):
+    for r in range(r0, rounds if r1 is None else r1):
         spec, path, solo = datasets[r % len(datasets)]
         nt = [2, 3, 4, 8, 16, 2, 6, 12][r % 8] if r >= 2 else [2, 16][r]
         same = (r % 7 == 6)
@@ -655,6 +831,10 @@ def stress(ctx, datasets, rng, quick):
             for op in l:
                 ctx.count("stress.op", op["op"])
         reported = False
+        if hung:
+            ctx.fail({"component": "shared-handle", "op": "round", "symptom": "hang", "mode": "stress"}, dict(case, hung=True),
+                     "a free-running round of %d threads did not finish within %ds" % (nt, int(conc.STRESS_DEADLINE)))
+            raise Hung("free-running round of %d threads" % nt)
         for i, l in enumerate(lists):
             for j, op in enumerate(l):
                 want = solo(op)
@@ -690,6 +870,8 @@ def determinise(spec, path, solo, op_b, ops, limit=40):
             pf = ParquetFile(path)
             res, steps, dead = conc.forced_run(pf, [a, op_b], [list(p) for p in plan])
             got = [conc.canon(x) for x in res]
+            if dead:
+                return {"mode": "forced", "dataset": spec, "ops": [a, op_b], "plan": plan, "failing_thread": 0, "solo": solo(a), "got": "hang"}
             for i, o in enumerate([a, op_b]):
                 if got[i] != solo(o):
                     return {"mode": "forced", "dataset": spec, "ops": [a, op_b], "plan": plan, "failing_thread": i,
@@ -791,8 +973,22 @@ def replay(rep):
     tmp = tempfile.mkdtemp(prefix="verif-C20-replay-", dir="/tmp")
     try:
         from fastparquet import ParquetFile
-        spec = case["dataset"]
         mode = case["mode"]
+        if mode == "job":
+            job = dict(case["job"], scratch=tmp)
+            if "datasets" in job:       # generated datasets lived in the scratch directory of the failing run: rebuild them
+                job["datasets"] = [(sp, conc.build_dataset(sp, os.path.join(tmp, "d%d" % i)) if not os.makedirs(os.path.join(tmp, "d%d" % i), exist_ok=True) else None)
+                                   for i, (sp, _) in enumerate(job["datasets"])]
+            res = C.pmap(_job, [job], nproc=1, job_timeout=1200)[0]
+            if isinstance(res, dict) and "__crashed__" in res:
+                print("phase %r again: %s -> PROPERTY FAILS (the process running the operations died or hung)" % (job["phase"], res["__crashed__"]))
+                return 1
+            fails = [c for c in res["calls"] if c[0] == "fail"]
+            print("phase %r again: worker finished, %d failing cases recorded" % (job["phase"], len(fails)))
+            for c in fails[:3]:
+                print("   ", str(c[1][2])[:300])
+            return 1 if fails else 0
+        spec = case["dataset"]
         if mode == "part":
             bad = 0
             for t in range(20):
